@@ -344,3 +344,90 @@ Proof.
   - unfold submit. cbn [tr push_main set_mainq emit set_tr]. right. left. reflexivity.
   - left. reflexivity.
 Qed.
+
+(* ------------------------------------------------------------------ *)
+(** * Obligations *)
+
+Definition tm (a : N) (k : list mop) : Prop := exists c, In (MTerminate a c) (calmpre k).
+
+Definition kterm (a : N) (k : list mop) (s : st) : Prop :=
+  (exists c, In (MRunItem c) k /\ ci_kind c = KTerm a) \/ (exists c, In c (mainq s) /\ ci_kind c = KTerm a).
+
+(* the termination of a is under way: notified, or the notifier invocation / the termination itself is pending in the
+   quiet prefix, or the deferred terminate(Dropped) is queued, or an (invisible) owner is still there *)
+Definition Ob (a : N) (k : list mop) (s : st) : Prop :=
+  In a (o_notified (st04 (tr s))) \/ pn a k \/ tm a k \/ kterm a k s \/ 1 <= ctr (HO a) s.
+
+Fixpoint nshape_dec (a : N) (r : ret) {struct r} : {nshape a r} + {~ nshape a r}.
+Proof.
+  destruct r as [rid k]. destruct k as [caps b|p ci|p ci|p inner|p key inner]; simpl; try solve [right; intros []].
+  - destruct (N.eq_dec p a); [left; auto | right; auto].
+  - apply nshape_dec.
+Defined.
+
+Lemma notified_ext s s' a : ext s s' -> In a (o_notified (st04 (tr s))) -> In a (o_notified (st04 (tr s'))).
+Proof. intros [evs E] H. rewrite E. apply notified_mono. exact H. Qed.
+
+Lemma Ob_step a m k0 s pre s' y :
+  KS s -> OI (m :: k0) s -> I2 (m :: k0) s -> Z.of_nat (length (tr s)) < CMAX - 1 ->
+  aget (actors s) a = Some y -> vis a (tr s) = 0 ->
+  (forall i, m <> MDrain i) -> (forall t, m <> MNew t) -> m <> MDropOwn a true ->
+  handle m s = (pre, s') -> Ob a (m :: k0) s -> Ob a (pre ++ k0) s'.
+Proof.
+  intros KK OO (DK & m2 & MM & JJ) LEN AY V0 ND NN NO E OB.
+  pose proof (handle_ext _ _ _ _ E) as EX.
+  pose proof (OI_prem _ _ _ KK OO LEN) as [SR HB LIM].
+  destruct OB as [N|[P|[T|[K|C]]]].
+  - left. eapply notified_ext; eauto.
+  - (* the notifier invocation is pending *)
+    destruct (qmop m) eqn:QM; [|exfalso; eapply pn_nq; eauto].
+    pose proof (qmop_quiet_pre _ _ _ _ QM E) as QP.
+    assert (D : (exists r mm, m = MRetInvoke r mm /\ nshape a r) \/ forall r mm, m = MRetInvoke r mm -> ~ nshape a r).
+    { destruct m; try (right; intros ? ? Q; discriminate Q). destruct (nshape_dec a r) as [Y|NY]; [left; eauto|].
+      right. intros r0 mm Q. inversion Q; subst. exact NY. }
+    destruct D as [(r & mm & -> & NS)|D]; [|right; left; eapply pn_step; eauto].
+    cbn [handle] in E. destruct r as [rid k]. destruct k as [caps b|p ci|p ci|p inner|p key inner]; try (destruct NS; fail).
+    + simpl in NS. subst p. left. apply st04_notified. eexists. eapply ret_invoke_notifies; eauto.
+    + simpl in NS. right. left. unfold ret_invoke in E. destruct mm as [mm|]; injp E.
+      * eapply (pn_push a k0 _ inner (Some mm)); [exact QP | left; reflexivity | exact NS].
+      * eapply (pn_push a k0 _ inner None); [exact QP | right; left; reflexivity | exact NS].
+  - (* the termination itself is pending *)
+    destruct (qmop m) eqn:QM; [|destruct T as (c & IN); rewrite calmpre_nq in IN by auto; destruct IN].
+    pose proof (qmop_quiet_pre _ _ _ _ QM E) as QP.
+    destruct T as (c & IN). rewrite calmpre_q in IN by auto. destruct IN as [->|IN].
+    + cbn [handle] in E. unfold terminate in E. rewrite AY in E.
+      destruct (state_drops a (a_state y) _) as [dl s1] eqn:SD.
+      destruct (ks_act _ KK _ _ AY) as (_ & _ & SH & ZB & _).
+      destruct (a_notify y) as [nt|] eqn:NT; injp E.
+      * right. left. eapply (pn_push a k0 _ nt (Some (MCause c))); [exact QP | apply in_or_app; right; right; left; reflexivity | apply SH; reflexivity].
+      * pose proof (o_ph _ _ _ JJ a y AY) as PH. rewrite (ZB eq_refl) in PH. destruct PH as [PH|PH].
+        -- left. eapply notified_ext; [exact EX|]. apply st04_notified. eapply mph3_notified; eauto.
+        -- right. left. eapply pn_step; eauto. intros r mm Q. discriminate Q.
+    + right. right. left. exists c. rewrite calmpre_app by auto. apply in_or_app. right. exact IN.
+  - (* the deferred terminate(Dropped) is queued *)
+    destruct K as [(c & IN & CK)|(c & IN & CK)].
+    + destruct IN as [->|IN].
+      * cbn [handle] in E. unfold run_item in E. destruct c as [u i kd caps q]. simpl in CK. subst kd. injp E.
+        right. right. left. exists CDrop. cbn [app calmpre qmop is_work runish andb negb]. left. reflexivity.
+      * right. right. right. left. left. exists c. split; [apply in_or_app; right; exact IN | exact CK].
+    + destruct (handle_mqs _ _ _ _ ND NN E c IN) as [H|H].
+      * right. right. right. left. right. eauto.
+      * right. right. right. left. left. exists c. split; [apply in_or_app; left; exact H | exact CK].
+  - (* an owner is still there *)
+    assert (D : (exists a0 lg, m = MDropOwn a0 lg) \/ forall a0 lg, m <> MDropOwn a0 lg).
+    { destruct m; try (right; intros ? ? Q; discriminate Q). left; eauto. }
+    destruct D as [(a0 & lg & ->)|D].
+    + cbn [handle] in E. destruct (N.eq_dec a0 a) as [->|NE].
+      * destruct lg; [exfalso; apply NO; reflexivity|].
+        assert (B : 0 < ctr (HO a) s < CMAX) by (pose proof (LIM a); lia).
+        destruct (drop_own_mq _ _ _ _ _ SR B E) as (C1 & _ & _).
+        destruct (Z.eq_dec (ctr (HO a) s') 0) as [Z|NZ].
+        -- right. right. right. left. right. eapply drop_own_push; eauto.
+        -- right. right. right. right. lia.
+      * right. right. right. right. destruct (drop_own_other _ _ _ _ _ _ NE E y AY) as (y' & AY' & EQ).
+        unfold ctr in *. rewrite AY in C. rewrite AY', EQ. exact C.
+    + right. right. right. right. destruct (handle_ceq _ _ _ _ SR D E a) as [CE|(act & l & -> & R)].
+      * destruct (CE y AY) as (y' & AY' & EQ). unfold ctr in *. rewrite AY in C. rewrite AY', EQ. exact C.
+      * exfalso. assert (L : exists h, lookup s h = Some (HOwn a)) by (destruct act; try contradiction; eauto).
+        destruct L as (h & L). eapply novis_lookup; eauto.
+Qed.
